@@ -57,4 +57,11 @@ theorem C05_server_response_order {cfg : S.Cfg} {tr : List S.Ev} {s : S.State} (
       ((s.jobs.filter (·.phase == .left)).map (·.req.seq)) :=
   S.pipe_response_order h hp hu
 
+/-- Poll mode is the same automaton: S's `feed` step (a frame is read and put, in the same
+    breath, where the dispatcher will find it in arrival order) describes the poll-mode serve
+    callback because, in the source read on this run, ReadMessage and the dispatch of the frame
+    happen inside one critical section of the connection's receive lock — however many of the
+    poller's workers serve the connection at once. -/
+theorem C05_poll_mode_is_the_same_automaton : Gen.pollReadAndDispatchUnderReceiveLock = true := by decide
+
 end RpcVerif.Props
